@@ -1,6 +1,8 @@
 package simrt
 
 import (
+	"reflect"
+	"runtime"
 	"sync"
 	"unsafe"
 )
@@ -154,48 +156,69 @@ const (
 	dirRecv int8 = 2
 )
 
+// findWaiter looks for a parked task waiting on channel key in direction dir; it returns
+// the task and the index of that wait among the task's registered waits.
+//
 //go:norace
-func findWaiter(key unsafe.Pointer, dir int8) int32 {
-	var c [MaxTasks]int32
+func findWaiter(key unsafe.Pointer, dir int8) (int32, int) {
+	var ct [64]int32
+	var ci [64]int
 	n := 0
 	if key == nil {
-		return -1 // operations on a nil channel block forever
+		return -1, 0 // operations on a nil channel block forever
 	}
-	for i := int32(0); i < ntasks; i++ {
-		if i != cur && tasks[i].state == tBlocked && tasks[i].waitKey == key && tasks[i].waitDir == dir && tasks[i].waitFn != nil && !tasks[i].fire {
-			c[n] = i
-			n++
+	for i := int32(0); i < ntasks && n < len(ct); i++ {
+		t := &tasks[i]
+		if i == cur || t.state != tBlocked || t.waitFn == nil || t.fire {
+			continue
+		}
+		for k := 0; k < t.nWait; k++ {
+			if t.waitKeys[k] == key && t.waitDirs[k] == dir {
+				ct[n], ci[n] = i, k
+				n++
+				break
+			}
 		}
 	}
 	if n == 0 {
-		return -1
+		return -1, 0
 	}
-	if pol.Kind == PolScript {
-		return c[0]
-	}
-	return c[rndN(n)]
+	j := selN(n)
+	return ct[j], ci[j]
 }
 
 //go:norace
-func fireTask(i int32) {
+func fireTask(i int32, which int) {
 	tasks[i].fire = true
+	tasks[i].fireIdx = which
 	tasks[i].state = tRunnable
 	progress++
 }
 
-// waitOn registers the current task as waiting on a channel and yields as blocked.
-// It reports whether a counterpart completed the operation meanwhile.
+// waitOnMany registers the current task as waiting on n channels and yields as blocked.
+// It reports whether a counterpart completed one of the operations meanwhile.
 //
 //go:norace
-func waitOn(key unsafe.Pointer, dir int8, f func()) bool {
+func waitOnMany(n int, keys *[maxSelCases]unsafe.Pointer, dirs *[maxSelCases]int8, f func(which int)) bool {
 	t := &tasks[cur]
-	t.waitKey, t.waitDir, t.waitFn, t.fired = key, dir, f, false
+	for i := 0; i < n; i++ {
+		t.waitKeys[i], t.waitDirs[i] = keys[i], dirs[i]
+	}
+	t.nWait, t.waitFn, t.fired = n, f, false
 	blocked()
 	t = &tasks[cur]
 	done := t.fired
 	t.fired = false
-	t.waitKey, t.waitFn = nil, nil
+	t.nWait, t.waitFn = 0, nil
 	return done
+}
+
+//go:norace
+func waitOn(key unsafe.Pointer, dir int8, f func()) bool {
+	var keys [maxSelCases]unsafe.Pointer
+	var dirs [maxSelCases]int8
+	keys[0], dirs[0] = key, dir
+	return waitOnMany(1, &keys, &dirs, func(int) { f() })
 }
 
 func chanKey[T any](ch chan T) unsafe.Pointer { return *(*unsafe.Pointer)(unsafe.Pointer(&ch)) }
@@ -214,8 +237,8 @@ func Send[T any](ch chan<- T, v T) {
 			return
 		default:
 		}
-		if r := findWaiter(key, dirRecv); r >= 0 {
-			fireTask(r)
+		if r, k := findWaiter(key, dirRecv); r >= 0 {
+			fireTask(r, k)
 			ch <- v // completes against r's receive, performed from r's parked loop
 			return
 		}
@@ -239,8 +262,8 @@ func Recv2[T any](ch <-chan T) (v T, ok bool) {
 			return
 		default:
 		}
-		if s := findWaiter(key, dirSend); s >= 0 {
-			fireTask(s)
+		if s, k := findWaiter(key, dirSend); s >= 0 {
+			fireTask(s, k)
 			v, ok = <-ch
 			return
 		}
@@ -255,3 +278,149 @@ func Recv[T any](ch <-chan T) T {
 	v, _ := Recv2(ch)
 	return v
 }
+
+// ---- select. `select { case ... }` is rewritten to
+//
+//	switch zzi, zzv, zzok := zzsim.Select(hasDefault, zzsim.RecvCase(c1), zzsim.SendCase(c2, x), ...); zzi { case 0: ...; case 1: ... ; default: ... }
+//
+// Among the cases that can proceed one is chosen uniformly (as Go does), from the
+// simulator's own stream, so the choice replays.
+
+type SelCase struct {
+	dir int8
+	ch  reflect.Value
+	val reflect.Value
+	key unsafe.Pointer
+}
+
+func RecvCase[T any](ch <-chan T) SelCase {
+	return SelCase{dir: dirRecv, ch: reflect.ValueOf(ch), key: *(*unsafe.Pointer)(unsafe.Pointer(&ch))}
+}
+
+func SendCase[T any](ch chan<- T, v T) SelCase {
+	return SelCase{dir: dirSend, ch: reflect.ValueOf(ch), val: reflect.ValueOf(&v).Elem(), key: *(*unsafe.Pointer)(unsafe.Pointer(&ch))}
+}
+
+// As converts the value received by Select back to the channel's element type.
+func As[T any](ch <-chan T, v any) T {
+	if v == nil {
+		var z T
+		return z
+	}
+	return v.(T)
+}
+
+func ifaceOf(v reflect.Value) any {
+	if !v.IsValid() {
+		return nil
+	}
+	return v.Interface()
+}
+
+//go:norace
+func selPerm(n int, p *[maxSelCases]int) {
+	for i := 0; i < n; i++ {
+		p[i] = i
+	}
+	for i := n - 1; i > 0; i-- {
+		j := selN(i + 1)
+		p[i], p[j] = p[j], p[i]
+	}
+}
+
+// Select returns the index of the case that proceeded (-1: default), the received value
+// and the receive's ok flag.
+func Select(hasDefault bool, cases ...SelCase) (int, any, bool) {
+	if !isActive() || len(cases) > maxSelCases {
+		sc := make([]reflect.SelectCase, 0, len(cases)+1)
+		for _, c := range cases {
+			if c.dir == dirRecv {
+				sc = append(sc, reflect.SelectCase{Dir: reflect.SelectRecv, Chan: c.ch})
+			} else {
+				sc = append(sc, reflect.SelectCase{Dir: reflect.SelectSend, Chan: c.ch, Send: c.val})
+			}
+		}
+		if hasDefault {
+			sc = append(sc, reflect.SelectCase{Dir: reflect.SelectDefault})
+		}
+		i, v, ok := reflect.Select(sc)
+		if hasDefault && i == len(cases) {
+			return -1, nil, false
+		}
+		return i, ifaceOf(v), ok
+	}
+	n := len(cases)
+	for {
+		var perm [maxSelCases]int
+		selPerm(n, &perm)
+		for _, i := range perm[:n] {
+			c := &cases[i]
+			if c.key == nil {
+				continue // nil channel: never ready
+			}
+			if c.dir == dirRecv {
+				if v, ok := c.ch.TryRecv(); ok || v.IsValid() {
+					noteProgress()
+					return i, ifaceOf(v), ok
+				}
+				if s, k := findWaiter(c.key, dirSend); s >= 0 {
+					fireTask(s, k)
+					v, ok := c.ch.Recv()
+					return i, ifaceOf(v), ok
+				}
+			} else {
+				if c.ch.TrySend(c.val) {
+					noteProgress()
+					return i, nil, false
+				}
+				if r, k := findWaiter(c.key, dirRecv); r >= 0 {
+					fireTask(r, k)
+					c.ch.Send(c.val)
+					return i, nil, false
+				}
+			}
+		}
+		if hasDefault {
+			return -1, nil, false
+		}
+		// nothing can proceed: wait on all of them
+		var keys [maxSelCases]unsafe.Pointer
+		var dirs [maxSelCases]int8
+		for i := range cases {
+			keys[i], dirs[i] = cases[i].key, cases[i].dir
+		}
+		chosen, rv, rok := -1, any(nil), false
+		if waitOnMany(n, &keys, &dirs, func(which int) {
+			c := &cases[which]
+			chosen = which
+			if c.dir == dirRecv {
+				v, ok := c.ch.Recv()
+				rv, rok = ifaceOf(v), ok
+			} else {
+				c.ch.Send(c.val)
+			}
+		}) {
+			return chosen, rv, rok
+		}
+	}
+}
+
+// GOMAXPROCS replaces runtime.GOMAXPROCS: a query (n < 1) answers the run's simulated
+// processor count; a change request is passed to the runtime.
+func GOMAXPROCS(n int) int {
+	if n < 1 && isActive() {
+		return simProcsNow()
+	}
+	return runtime.GOMAXPROCS(n)
+}
+
+// NumCPU replaces runtime.NumCPU.
+func NumCPU() int {
+	if isActive() {
+		return simProcsNow()
+	}
+	return runtime.NumCPU()
+}
+
+//go:norace
+func simProcsNow() int { return simProcs }
